@@ -61,7 +61,8 @@ Qed.
 Lemma zstep_wf g p o g' p' obs : wf g -> zstep (g, p) o = Ok ((g', p'), obs) -> wf g'.
 Proof.
   intros Hwf. destruct o as [k|a b|a|o| |]; cbn [zstep].
-  - destruct (add_node _ g) as [g1 i] eqn:Ha. intros [= <- _ _].
+  - destruct (add_node _ g) as [g1 i] eqn:Ha. intros H.
+    apply (f_equal (fun r => match r with Ok x => fst (fst x) | _ => g end)) in H. cbn [fst] in H. subst g'.
     pose proof (wf_add_node g {| ident := 0; kind := k; count := 0; val := 0 |} Hwf) as H1.
     rewrite Ha in H1. cbn [fst] in H1.
     now apply wf_set_weight_any.
